@@ -1,4 +1,10 @@
 import RsslVerif.Lemmas.SlotsInline
+import RsslVerif.Lemmas.FixpointStmt
+import RsslVerif.Gen.FixpointTables
+import RsslVerif.Lemmas.FixpointText
+import RsslVerif.Lemmas.FixpointSlots
+import RsslVerif.Lemmas.FixpointLeaf
+import RsslVerif.Thm.C09
 /-!
 # C04 — emitted DirectX HLSL is accepted by the front end and is a fixpoint
 
@@ -48,5 +54,435 @@ example : assign paramsDefault 0 ([Decl.cbuffer none, .global (some 1) false (so
       .global none false (some .SamplerState) none].map (explicit 2)) =
     assign paramsDefault 2 [Decl.cbuffer none, .global (some 1) false (some .Texture2D) (some 2),
       .global none false (some .SamplerState) none] := slots_stable _ _ _ _
+
+/-! ## Slots as re-read from the printed annotations -/
+section Reread
+open RsslVerif.Gen.MetaTables RsslVerif.Model.Meta RsslVerif.Spec.Meta RsslVerif.Model.FixpointSlots
+open RsslVerif.Lemmas.FixpointSlots
+
+/-- the DirectX target allocates with register types and without buffer addresses, whatever `support_buffer_address`
+    says (re-extracted `binding_params` of `compile()`) -/
+theorem dx_params (sba : Bool) : DxParams (paramsFor .HlslForDirectX sba) := by
+  cases sba <;> exact ⟨rfl, rfl⟩
+
+/-- **Every resource keeps its slot when the emitted text is compiled again.**  First generation: `assign` over the
+    declarations `ds` (default group `dflt` of the selected pipeline) gives `res`.  The exporter prints
+    ` : register(<letter><index>[, space<group>])` for every bound declaration; the second generation sees each
+    declaration with the bind group that C05's character-level reader reads from that printed text (`secondDecls`:
+    print, then read back, then "space 0 / no space = no explicit group") and runs without a pipeline (default group 0).
+    It computes exactly `res` again: the same group, index and register class for every declaration and the same
+    inline constant blocks. -/
+theorem slots_stable_reread {p : Params} (hp : DxParams p) (dflt : Nat) (ds : List Decl) (res : Result)
+    (h : assign p dflt ds = .ok res) : assign p 0 (secondDecls ds res.bindings) = .ok res := by
+  simp only [assign] at h ⊢
+  split at h
+  · simp at h
+  · rename_i st bs hrun
+    simp at h; subst h
+    simp only [run_second hp dflt ds State.init st bs hrun]
+
+/-- …and therefore prints the same annotations again -/
+theorem annotations_stable {p : Params} (hp : DxParams p) (dflt : Nat) (ds : List Decl) (res res2 : Result)
+    (h : assign p dflt ds = .ok res) (h2 : assign p 0 (secondDecls ds res.bindings) = .ok res2) :
+    res2.bindings.map regAnnot = res.bindings.map regAnnot := by
+  rw [slots_stable_reread hp dflt ds res h] at h2
+  cases h2; rfl
+
+/-- what is read back from a printed annotation is the group of the binding it was printed for -/
+theorem reread_names_group (r : RegT) (i g : Nat) : (rereadSet (Annot.reg r i g).print).getD 0 = g :=
+  rereadSet_reg r i g
+
+/-! Non-vacuity: a cbuffer in the pipeline's default group 2, a texture array with an explicit group, a sampler -/
+def dsEx : List Decl :=
+  [Decl.cbuffer none, .global (some 1) false (some .Texture2D) (some 2), .global none false (some .SamplerState) none]
+
+example :
+    (match assign paramsDefault 2 dsEx with
+     | .ok res =>
+       decide (res.bindings.map (fun b => b.map (·.set)) = [some 2, some 1, some 2]) &&
+       decide (secondDecls dsEx res.bindings =
+         [Decl.cbuffer (some 2), .global (some 1) false (some .Texture2D) (some 2),
+          .global (some 2) false (some .SamplerState) none]) &&
+       (match assign paramsDefault 0 (secondDecls dsEx res.bindings) with
+        | .ok res2 => decide (res2 = res)
+        | .error _ => false)
+     | .error _ => false) = true := by decide
+
+end Reread
+
+/-! ## Re-elaboration of the exported program adds no conversion (type level, C03 model × exporter shadow)
+
+`Model.Fixpoint.Unelab Γ' i s` says that `s` is a syntax tree the front end can read from the text exported for the
+elaborated expression `i` (`generate_expression` node by node: typed `Int32` constants lose their kind, negative
+constants become `-` applied to the magnitude, casts to literal types are dropped, every function has its own name).
+The theorems are about `Model.Elab.elabE` (C03's model of `parse_expr_internal`, any types, any nesting, any overload
+sets) in the first generation and in the second. -/
+section Reelab
+open RsslVerif.Gen.RankTable RsslVerif.Gen.TypingTables RsslVerif.Gen.FixpointTables
+open RsslVerif.Model.Conv RsslVerif.Model.Overload RsslVerif.Model.IrTyping RsslVerif.Model.Elab RsslVerif.Model.Fixpoint
+open RsslVerif.Lemmas.FixpointElab RsslVerif.Lemmas.FixpointStmt
+
+/-- the hand-written `rereadTable` is `parse_literal` as re-extracted from typer/src/typer/expressions.rs: same
+    constant variant for every suffix kind, the same three kinds rejected, payload = the literal's own value -/
+theorem reread_table_agrees : ∀ k : RsslVerif.Gen.HlslGenTables.LitKind,
+    (parseLiteralTable.find? (fun r => r.1 == k.name)).map (fun r => r.2.map (·.1)) =
+      some ((rereadTable k).map Scalar.name) := by
+  intro k; cases k <;> decide
+
+/-- `litTyped` is the re-extracted `to_literal` test of the `Cast` arm (after `remove_modifier`) -/
+theorem cast_drop_agrees (m : Modifier) (l : Layer) :
+    litTyped ⟨m, l⟩ = (match l with | .scalar s => castDropLayers.contains s.name | _ => false) := by
+  cases l with
+  | scalar s => cases s <;> simp [litTyped] <;> decide
+  | _ => rfl
+
+/-- only typed `Int32` constants change their kind when exported and read back (`3` is an `IntLiteral`); every
+    other kind has a suffix of its own -/
+theorem reread_only_int32 (k : Scalar) : rereadKind k = if k = .int32 then .intLiteral else k := rereadKind_eq k
+
+/-- **reelab_no_new_casts.**  Let `i : τ` be the elaboration of a source expression `s` (any expression of the C03
+    model: literals, variables, all unary and binary operators, `?:`, `,`, casts, calls through overload resolution;
+    scalar, vector, matrix, modified, struct/object types) in the environment `Γ`, and `Γ'` the environment of the
+    exported program (same variables and signatures, every function named on its own).  Then **every** tree `s'` the
+    front end can read from the export of `i` elaborates — in `Γ'`, in debug or release builds — to `i` itself with
+    the same type `τ`: no conversion is added or lost, every literal gets its kind back, every call selects the same
+    function, every operator works on the same type.
+
+    Hypotheses: `SrcOk s` (the first source is one the parser can produce: no `Int32` literal, no cast to an unnamed
+    literal type — exported trees satisfy it again: `export_is_source`); `OutArgsPlain Γ i` (no `Cast` node in an
+    `out` / `inout` argument position: without it the statement is false, `reelab_fails_out_argument`). -/
+theorem reelab_no_new_casts {Γ Γ' : Env} (hR : Renamed Γ Γ') (dbg dbg' : Bool) {s : SExpr} {i : IExpr} {τ : ETy}
+    (hs : SrcOk s) (h : elabE dbg Γ s = .ok (i, τ)) (hp : OutArgsPlain Γ i) {s' : SExpr} (hu : Unelab Γ' i s') :
+    elabE dbg' Γ' s' = .ok (i, τ) := reelab_any hR dbg dbg' hs h hp hu
+
+/-- the same for statements: expression statements, `return e` (conversion to the return type) and `T v = e`
+    (conversion to the variable's type) are rebuilt identically -/
+theorem reelab_stmt_no_new_casts {Γ Γ' : Env} (hR : Renamed Γ Γ') (dbg dbg' : Bool) {s : SStmt} {st : IStmt}
+    (hs : SrcStmtOk s) (h : elabStmt dbg Γ s = .ok st) (hp : OutArgsPlainStmt Γ st) {s' : SStmt}
+    (hu : UnelabStmt Γ' st s') : elabStmt dbg' Γ' s' = .ok st := reelab_stmt hR dbg dbg' hs h hp hu
+
+/-- an exported tree is a source tree again, so the two theorems above apply to every further generation -/
+theorem export_is_source {Γ' : Env} {i : IExpr} {s' : SExpr} (hu : Unelab Γ' i s') : SrcOk s' := unelab_srcOk i s' hu
+
+/-- the executable exporter shadow the driver runs (`Model.Fixpoint.unelab`) produces such a tree -/
+theorem unelab_is_export {Γ' : Env} {i : IExpr} {s' : SExpr} (h : unelab Γ' i = some s') : Unelab Γ' i s' :=
+  unelab_sound i s' h
+
+/-- every environment has an exported version (`uniqueNames`: function `i` is called `i`) -/
+theorem renamed_exists (Γ : Env) : Renamed Γ (uniqueNames Γ) := renamed_uniqueNames Γ
+
+/-- **idempotence**: elaborating the export of an elaborated expression gives an expression whose export elaborates
+    to it again — the composition `elab ∘ export` is idempotent from the first generation on -/
+theorem reelab_idempotent {Γ Γ' : Env} (hR : Renamed Γ Γ') (hR' : Renamed Γ' Γ') (dbg : Bool) {s s' s'' : SExpr}
+    {i : IExpr} {τ : ETy} (hs : SrcOk s) (h : elabE dbg Γ s = .ok (i, τ)) (hp : OutArgsPlain Γ i)
+    (hp' : OutArgsPlain Γ' i) (hu : Unelab Γ' i s') (hu' : Unelab Γ' i s'') : elabE dbg Γ' s'' = .ok (i, τ) :=
+  reelab_no_new_casts hR' dbg dbg (export_is_source hu) (reelab_no_new_casts hR dbg dbg hs h hp hu) hp' hu'
+
+/-! ### non-vacuity -/
+
+/-- `float v0; const int v1; bool v2;`  `int k(int); int k(float);` (one overload set) -/
+def ΓEx : Env :=
+  { vars := [⟨{}, .scalar .float32⟩, ⟨{ isConst := true }, .scalar .int32⟩, ⟨{}, .scalar .bool⟩],
+    funcs := [⟨5, [⟨⟨{}, .scalar .int32⟩, .in⟩], 1, ⟨{}, .scalar .int32⟩⟩,
+              ⟨5, [⟨⟨{}, .scalar .float32⟩, .in⟩], 1, ⟨{}, .scalar .int32⟩⟩] }
+
+/-- `v0 = v1 + 1 + k(v2 + 1) + (v2 ? 1 : 2)`: elaborates to
+    `Assignment(v0, Cast(float, Add(Add(Cast(int, v1), Int32 1), k#0(Cast(int, Add(Cast(IntLiteral, v2), 1)))) + …`
+    with re-tagged literals, a dropped cast to `IntLiteral`, an overload chosen by promotion, and a cast of an
+    `IntLiteral`-typed conditional; its export is accepted and elaborates to the same tree. -/
+def sEx : SExpr :=
+  .bin .assignment (.var 0)
+    (.bin .add (.bin .add (.bin .add (.var 1) (.lit .intLiteral))
+      (.call 5 (.cons (.bin .add (.var 2) (.lit .intLiteral)) .nil)))
+      (.tern (.var 2) (.lit .intLiteral) (.lit .intLiteral)))
+
+example :
+    (match elabE true ΓEx sEx with
+     | .ok (i, τ) =>
+       (match unelab (uniqueNames ΓEx) i with
+        | some s' =>
+          (match elabE true (uniqueNames ΓEx) s' with
+           | .ok (_, τ') => decide (τ' = τ) && decide (τ = ⟨⟨{}, .scalar .float32⟩, .lvalue⟩)
+           | .error _ => false)
+        | none => false)
+     | .error _ => false) = true := by decide
+
+/-- the hypotheses of the theorem hold for it -/
+example : SrcOk sEx := by simp [sEx, SrcOk, SrcArgsOk]; decide
+
+/-! ### the hypothesis on `out` arguments is needed -/
+
+/-- `float v0;`  `void g(out float1 p);` -/
+def ΓOut : Env :=
+  { vars := [⟨{}, .scalar .float32⟩],
+    funcs := [⟨7, [⟨⟨{}, .vector .float32 1⟩, .out⟩], 1, ⟨{}, .other 0⟩⟩] }
+
+/-- **Negation with a witness.**  `g(v0)` with `float v0` and `void g(out float1 p)` is accepted and elaborates to
+    `g(Cast(float1, v0))` (the `T` ↔ `T1` conversion "works for lvalues" in `ImplicitConversion::find`, but `apply`
+    builds a `Cast`, which is an rvalue); the export `g((float1)v0)` is **rejected** in the second generation
+    (`FunctionArgumentTypeMismatch`: an rvalue for an `out` parameter).  So `reelab_no_new_casts` is false without
+    `OutArgsPlain`, and C04's "the emitted text is accepted" is false on the real compiler: replayed by
+    corpus/C04.txt (`void g(out float1 p) …`, known finding; the same root cause as C03's "rvalue passed to
+    out/inout parameter"). -/
+theorem reelab_fails_out_argument :
+    (match elabE true ΓOut (.call 7 (.cons (.var 0) .nil)) with
+     | .ok (.call 0 (.cons (.cast t (.var 0)) .nil), _) =>
+       decide (t = ⟨{}, .vector .float32 1⟩) &&
+       (match unelab (uniqueNames ΓOut) (.call 0 (.cons (.cast t (.var 0)) .nil)) with
+        | some s' =>
+          (match elabE true (uniqueNames ΓOut) s' with
+           | .error (.reject "FunctionArgumentTypeMismatch") => true
+           | _ => false)
+        | none => false)
+     | _ => false) = true := by decide
+
+end Reelab
+
+/-! ## The composition: the second generation is the first (C01 exporter model ∘ C09 ∘ C03 elaboration)
+
+`e : Ir.Expr` is a first-generation expression of the C01 subset (constants with their values), `i = erase e` its
+skeleton in the C03 model, `a = genExpr cx e` the tree the exporter model of C01 generates for it (names from the
+`NameMap`).  The second generation is obtained by printing `a`, parsing the text, resolving names, elaborating, and
+exporting again.  Each arrow is a theorem of one layer; the hypotheses that connect them are named. -/
+section Fixpoint
+open RsslVerif.Gen.RankTable RsslVerif.Gen.TypingTables
+open RsslVerif.Model RsslVerif.Model.Conv RsslVerif.Model.Overload RsslVerif.Model.IrTyping RsslVerif.Model.Elab
+open RsslVerif.Model.Fixpoint RsslVerif.Model.FixpointBridge RsslVerif.Model.GenHlsl
+open RsslVerif.Lemmas.FixpointBridge RsslVerif.Lemmas.FixpointText RsslVerif.Lemmas.Roundtrip RsslVerif.Spec.Roundtrip
+
+/-- **bridge_square.**  The exporter model of C01 and the exporter shadow `Unelab` are the same exporter: for every
+    expression of the C01 subset with a C03 counterpart, the tree `GenHlsl.genExpr` generates, read back by the front
+    end (`readBack`: `parse_literal`, name lookup, operator and type names), is one of the trees `Unelab` describes.
+    `NamesAgree` is name hygiene (C15): an emitted name is looked up to the entity it was emitted for. -/
+theorem bridge_square {Γ' : Env} {nm : Names} {cx : Ctx} {ix : Idx} (hA : NamesAgree cx ix nm Γ') {e : Ir.Expr}
+    {i : IExpr} {a : HlslAst.Expr} (he : erase ix e = some i) (hg : genExpr cx e = .ok a) :
+    ∃ s, readBack nm a = some s ∧ Unelab Γ' i s := genExpr_back hA e i a he hg
+
+/-- an expression of the subset is its skeleton plus its constants (positions name entities uniquely) -/
+theorem skeleton_and_constants {ix : Idx} (hI : IdxInj ix) {e e2 : Ir.Expr} {i : IExpr} (h1 : erase ix e = some i)
+    (h2 : erase ix e2 = some i) (hl : leaves e = leaves e2) : e = e2 := erase_inj hI e e2 i h1 h2 hl
+
+/-- the payloads of `parse_literal` and of the one re-tagging a re-read constant undergoes are the modelled ones
+    (`rereadConst`: `i as i128`, `i as u32`, value unchanged; `retagTo`: `IntLiteral(v) ↦ Int32(v as i32)`), as
+    re-extracted from typer/src/typer/expressions.rs and typer/src/casting.rs -/
+theorem reread_payloads_as_modelled :
+    RsslVerif.Gen.FixpointTables.parseLiteralTable.map (fun r => r.2.map (·.2)) =
+      [some "v", some "v as i128", some "v as u32", none, none, some "v", some "v", some "v", some "v", none] ∧
+    (RsslVerif.Gen.FixpointTables.retagPayloads.find? (fun r => r.1 == "IntLiteral" && r.2.1 == "Int32")).map (·.2.2) =
+      some "v as i32" := by decide
+
+/-- **leaf_value_preserved** — the literal leg at the level of constants: every constant the exporter can print
+    (any `Int32` including `i32::MIN`, any `UInt32`, `IntLiteral` within ±(2^64−1), every float bit pattern, booleans)
+    gets its value back after `generate_literal`, `parse_literal`, folding of the printed sign and re-tagging to the
+    kind the skeleton has at that leaf.  This discharges the hypothesis `leaves e2 = leaves e` of `fixpoint_expr`
+    leaf by leaf, up to the digits: that the printed decimal text of a float is read back to the same bits is C10
+    (`lex_float_nearest`, `nearest64_correct`) plus Rust's shortest round-trip `Display` (assumption). -/
+theorem leaf_value_preserved (c : Ir.Const) (a : HlslAst.Expr) (h : genLiteral c = .ok a) : leafBack c = some c :=
+  RsslVerif.Lemmas.FixpointLeaf.leafBack_id c a h
+
+/-- non-vacuity: `i32::MIN` is printed `-2147483648`, read as `IntLiteral(2147483648)`, negated and re-tagged -/
+example : leafBack (.int32 (BitVec.intMin 32)) = some (.int32 (BitVec.intMin 32)) ∧
+    genLiteral (.int32 (BitVec.intMin 32)) = .ok (.un .Minus (.lit (.intUntyped 2147483648))) := by
+  constructor
+  · exact leaf_value_preserved _ _ (by rfl : genLiteral (.int32 (BitVec.intMin 32)) = .ok (.un .Minus (.lit (.intUntyped 2147483648))))
+  · rfl
+
+/-- the C09 leg for one exported tree: the printed tokens, in front of anything that ends an expression, are read by
+    the parser as exactly the tree that was printed -/
+def ParsesBack (a : HlslAst.Expr) : Prop :=
+  ∃ t, toFmt a = some t ∧ ∀ rest, RsslVerif.Thm.C09.Stops rest → ReadsBack t rest
+
+/-- discharged by C09's `roundtrip_expr_partial` for every exported tree in the fragment of its model (no cast; every
+    literal prints as one token reading back as itself: non-negative, floats in the dyadic subset) -/
+theorem parsesBack_of_c09 {a : HlslAst.Expr} {t : Format.Expr} (h : toFmt a = some t) (hwf : WF t) : ParsesBack a :=
+  ⟨t, h, fun rest hr => RsslVerif.Thm.C09.roundtrip_expr_partial t hwf rest hr⟩
+
+/-- **fixpoint_expr.**  First generation: `s` (source) elaborates to the skeleton `i : τ` of `e`, `e` exports to `a`.
+    Then
+    1. *(front end accepts, no new conversions)* the tree `a`, read back by the front end, elaborates in the exported
+       environment — debug or release build — to `i : τ` again: same casts, same overloads, same operator types, same
+       literal kinds (`bridge_square` ∘ `reelab_no_new_casts`);
+    2. *(second generation = first)* every second-generation expression `e2` with that skeleton whose constants are
+       those of `e` **is** `e`, so it exports to the same tree `a` — and therefore prints the same text.
+
+    Named hypotheses and where they come from:
+    * `hA : NamesAgree` — name hygiene, C15 (`verbatim`, `never_reserved`, `injective_per_scope`): the emitted names
+      are looked up to the same entities; `hR : Renamed` — every exported function has its own name (same theorems);
+    * `hlit : leaves e2 = leaves e` (in 2.) — literal exactness: the constants of the second generation are those of
+      the first, i.e. each printed literal is re-read with its value (C10 `lex_float_nearest`, `int_value_exact`, C01
+      `literal_value_preserved`) and re-tagged to its kind with that value; checked value by value by the `C04.reelab`
+      oracle on the real compiler;
+    * `hs`, `hp` — as in `reelab_no_new_casts`.
+    The text leg (print ∘ parse = id on `a`) is `ParsesBack a`, see `fixpoint_expr_text`. -/
+theorem fixpoint_expr {Γ Γ' : Env} (hR : Renamed Γ Γ') {nm : Names} {cx : Ctx} {ix : Idx}
+    (hA : NamesAgree cx ix nm Γ') (hI : IdxInj ix) (dbg dbg' : Bool) {s : SExpr} {i : IExpr} {τ : ETy}
+    (hs : SrcOk s) (hel : elabE dbg Γ s = .ok (i, τ)) (hp : OutArgsPlain Γ i)
+    {e : Ir.Expr} (he : erase ix e = some i) {a : HlslAst.Expr} (hg : genExpr cx e = .ok a) :
+    (∃ s', readBack nm a = some s' ∧ elabE dbg' Γ' s' = .ok (i, τ)) ∧
+    (∀ e2, erase ix e2 = some i → leaves e2 = leaves e → e2 = e ∧ genExpr cx e2 = .ok a) := by
+  refine ⟨?_, ?_⟩
+  · obtain ⟨s', hrb, hu⟩ := bridge_square hA he hg
+    exact ⟨s', hrb, reelab_no_new_casts hR dbg dbg' hs hel hp hu⟩
+  · intro e2 he2 hlit
+    have : e2 = e := skeleton_and_constants hI he2 he hlit
+    subst this
+    exact ⟨rfl, hg⟩
+
+/-- **fixpoint_expr_text.**  With the C09 leg: the text printed for the first generation is read by the parser as the
+    exported tree (so the front end sees `a`), and the text printed for the second generation — the print of the
+    export of any `e2` as in `fixpoint_expr` — is byte for byte the text printed for the first. -/
+theorem fixpoint_expr_text {cx : Ctx} {ix : Idx} (hI : IdxInj ix) {e : Ir.Expr} {i : IExpr} {a : HlslAst.Expr}
+    (he : erase ix e = some i) (hg : genExpr cx e = .ok a) (hparse : ParsesBack a) :
+    ∃ t, toFmt a = some t ∧ (∀ rest, RsslVerif.Thm.C09.Stops rest → ReadsBack t rest) ∧
+      ∀ e2 a2 t2, erase ix e2 = some i → leaves e2 = leaves e → genExpr cx e2 = .ok a2 → toFmt a2 = some t2 →
+        Format.render (Format.fmtExpr t2) = Format.render (Format.fmtExpr t) := by
+  obtain ⟨t, ht, hrb⟩ := hparse
+  refine ⟨t, ht, hrb, ?_⟩
+  intro e2 a2 t2 he2 hlit hg2 ht2
+  have : e2 = e := skeleton_and_constants hI he2 he hlit
+  subst this
+  rw [hg] at hg2
+  cases hg2
+  rw [ht] at ht2
+  cases ht2
+  rfl
+
+/-- **fixpoint_stmt** (the statement forms of the C03 model: expression statement, `return`, initialised definition).
+    The statement the exporter model of C01 generates (`GenHlsl.genStmt`: `generate_statement`,
+    `generate_variable_definition`), read back by the front end, elaborates in the exported environment to the
+    first-generation statement: the conversion to the return type / to the variable's type is found again and applied to
+    the same effect.  (`if` / loops / `switch` / blocks carry no conversion of their own — conditions are elaborated
+    like expression statements — and are outside the C03 statement model; their expressions are covered by
+    `fixpoint_expr`, their print / parse round trip by C09.) -/
+theorem fixpoint_stmt {Γ Γ' : Env} (hR : Renamed Γ Γ') {nm : Names} {cx : Ctx} {ix : Idx}
+    (hA : NamesAgree cx ix nm Γ') (dbg dbg' : Bool) {s : SStmt} {st : IStmt} (hs : SrcStmtOk s)
+    (hel : elabStmt dbg Γ s = .ok st) (hp : OutArgsPlainStmt Γ st)
+    {stI : Ir.Stmt} (he : eraseStmt ix cx.vty stI = some st) {sa : HlslAst.Stmt} (hg : genStmt cx stI = .ok sa) :
+    ∃ s', readBackStmt nm sa = some s' ∧ elabStmt dbg' Γ' s' = .ok st := by
+  cases stI with
+  | expr e =>
+    simp only [eraseStmt] at he
+    cases hee : erase ix e with
+    | none => simp [hee] at he
+    | some i =>
+      simp [hee] at he; subst he
+      simp only [genStmt] at hg
+      cases hge : genExpr cx e with
+      | error x => simp [hge, Except.map] at hg
+      | ok a =>
+        simp [hge, Except.map] at hg; subst hg
+        obtain ⟨s', hrb, hu⟩ := bridge_square hA hee hge
+        exact ⟨.expr s', by simp [readBackStmt, hrb], reelab_stmt_no_new_casts hR dbg dbg' hs hel hp (.expr hu)⟩
+  | ret eo =>
+    cases eo with
+    | none =>
+      simp [eraseStmt] at he; subst he
+      simp [genStmt, genOptExpr, Except.map] at hg; subst hg
+      exact ⟨.ret none, by simp [readBackStmt], reelab_stmt_no_new_casts hR dbg dbg' hs hel hp .retNone⟩
+    | some e =>
+      simp only [eraseStmt] at he
+      cases hee : erase ix e with
+      | none => simp [hee] at he
+      | some i =>
+        simp [hee] at he; subst he
+        simp only [genStmt, genOptExpr] at hg
+        cases hge : genExpr cx e with
+        | error x => simp [hge, Except.map] at hg
+        | ok a =>
+          simp [hge, Except.map] at hg; subst hg
+          obtain ⟨s', hrb, hu⟩ := bridge_square hA hee hge
+          exact ⟨.ret (some s'), by simp [readBackStmt, hrb], reelab_stmt_no_new_casts hR dbg dbg' hs hel hp (.ret hu)⟩
+  | var id init =>
+    cases init with
+    | none => simp [eraseStmt] at he
+    | some e =>
+      simp only [eraseStmt] at he
+      cases hee : erase ix e with
+      | none => simp [hee] at he
+      | some i =>
+        simp [hee] at he; subst he
+        simp only [genStmt, genVarDef] at hg
+        cases htn : typeName (cx.vty (.loc id)) with
+        | error x => simp [htn] at hg
+        | ok tn =>
+          simp only [htn, genOptExpr] at hg
+          cases hge : genExpr cx e with
+          | error x => simp [hge, Except.map] at hg
+          | ok a =>
+            simp [hge, Except.map] at hg; subst hg
+            obtain ⟨s', hrb, hu⟩ := bridge_square hA hee hge
+            exact ⟨.init (eraseTy (cx.vty (.loc id))) s',
+              by simp [readBackStmt, hrb, RsslVerif.Lemmas.FixpointBridge.tyOfName_typeName _ _ htn],
+              reelab_stmt_no_new_casts hR dbg dbg' hs hel hp (.init hu)⟩
+  | _ => simp [eraseStmt] at he
+
+/-! ### non-vacuity: `a = b + 3` with `int a, b` -/
+
+def cxEx : Ctx where
+  locName n := match n with | 0 => "a" | 1 => "b" | _ => "v"
+  globName _ := "g"
+  funcName _ := "f"
+  vty _ := .int
+
+def ixEx : Idx where
+  var v := match v with | .loc 0 => some 0 | .loc 1 => some 1 | _ => none
+  func _ := none
+
+def nmEx : Names where
+  res n := if n = "a" then some 0 else if n = "b" then some 1 else none
+  fres _ := none
+
+def ΓInt : Env := { vars := [⟨{}, .scalar .int32⟩, ⟨{}, .scalar .int32⟩], funcs := [] }
+
+/-- `Assignment(a, Add(b, Int32 3))` -/
+def eEx : Ir.Expr :=
+  .op .Assignment (.cons (.var 0) (.cons (.op .Add (.cons (.var 1) (.cons (.lit (.int32 3)) .nil))) .nil))
+
+def aEx : HlslAst.Expr := .bin .Assignment (.ident "a") (.bin .Add (.ident "b") (.lit (.intUntyped 3)))
+
+theorem namesAgreeEx : NamesAgree cxEx ixEx nmEx ΓInt where
+  loc id j h := by
+    match id, h with
+    | 0, h => simp [ixEx] at h; subst h; rfl
+    | 1, h => simp [ixEx] at h; subst h; rfl
+    | n + 2, h => simp [ixEx] at h
+  glob id j h := by simp [ixEx] at h
+  func f j h := by simp [ixEx] at h
+
+theorem idxInjEx : IdxInj ixEx where
+  var v w j hv hw := by
+    match v, w, hv, hw with
+    | .loc 0, .loc 0, _, _ => rfl
+    | .loc 1, .loc 1, _, _ => rfl
+    | .loc 0, .loc 1, hv, hw => simp [ixEx] at hv hw; omega
+    | .loc 1, .loc 0, hv, hw => simp [ixEx] at hv hw; omega
+    | .loc (n + 2), _, hv, _ => simp [ixEx] at hv
+    | _, .loc (n + 2), _, hw => simp [ixEx] at hw
+    | .glob _, _, hv, _ => simp [ixEx] at hv
+    | _, .glob _, _, hw => simp [ixEx] at hw
+  func f g j hf _ := by simp [ixEx] at hf
+
+/-- all hypotheses of `fixpoint_expr` and `fixpoint_expr_text` hold for the example: the text `a = b + 3` is parsed
+    back to the exported tree, re-elaborated to the first-generation skeleton (the literal re-tagged to `Int32`
+    again), and any second generation with the constant `3` prints `a = b + 3` again -/
+example :
+    (∃ s', readBack nmEx aEx = some s' ∧
+      elabE true ΓInt s' = elabE true ΓInt (.bin .assignment (.var 0) (.bin .add (.var 1) (.lit .intLiteral)))) ∧
+    ParsesBack aEx := by
+  have hR : Renamed ΓInt ΓInt :=
+    ⟨rfl, rfl, fun f sg h => by simp [ΓInt] at h, fun f g sf sg h => by simp [ΓInt] at h⟩
+  have hel : ∃ i τ, elabE true ΓInt (.bin .assignment (.var 0) (.bin .add (.var 1) (.lit .intLiteral))) = .ok (i, τ) ∧
+      erase ixEx eEx = some i ∧ OutArgsPlain ΓInt i := by
+    refine ⟨_, _, rfl, rfl, ?_⟩
+    simp [OutArgsPlain, OutArgsPlainArgs]
+  obtain ⟨i, τ, h1, h2, h3⟩ := hel
+  have hg : genExpr cxEx eEx = .ok aEx := by rfl
+  obtain ⟨⟨s', hrb, hs'⟩, _⟩ := fixpoint_expr hR namesAgreeEx idxInjEx true true
+    (by simp [SrcOk]; decide) h1 h3 h2 hg
+  refine ⟨⟨s', hrb, by rw [hs', h1]⟩, ?_⟩
+  exact parsesBack_of_c09 (t := .bin .Assignment (.id "a") (.bin .Add (.id "b") (.lit ⟨.IntUntyped, false, 3⟩))) rfl
+    (by simp [WF]; decide)
+
+end Fixpoint
 
 end RsslVerif.Thm.C04
